@@ -70,9 +70,9 @@ func (r *memRealizer) Close() error {
 	return nil
 }
 
-// ecosystems: libindex's default list without rhcc (its scanner wants a
+// newEcosystems: libindex's default list without rhcc (its scanner wants a
 // name-to-repository mapping from the network), in libindex's order.
-func ecosystems(ctx context.Context) []*indexer.Ecosystem {
+func newEcosystems(ctx context.Context) []*indexer.Ecosystem {
 	return []*indexer.Ecosystem{
 		dpkg.NewEcosystem(ctx),
 		alpine.NewEcosystem(ctx),
@@ -85,6 +85,19 @@ func ecosystems(ctx context.Context) []*indexer.Ecosystem {
 		nodejs.NewEcosystem(ctx),
 		whiteout.NewEcosystem(ctx), // libindex always appends it
 	}
+}
+
+// ecosystems: ONE long-lived set of Ecosystem values, as a deployment has (libindex.New builds
+// them once and indexes every manifest through them). Every manifest of a run goes through these;
+// realIndexWith{Fresh: true} builds a new set for the history-independence comparison.
+var deployment struct {
+	once sync.Once
+	ecos []*indexer.Ecosystem
+}
+
+func ecosystems(ctx context.Context) []*indexer.Ecosystem {
+	deployment.once.Do(func() { deployment.ecos = newEcosystems(ctx) })
+	return deployment.ecos
 }
 
 // ecoKinds: which coalescer model each ecosystem of ecosystems() runs under,
@@ -138,8 +151,16 @@ type indexResult struct {
 	Err    error
 }
 
-// realIndex runs controller.Index over the given layers (tars).
-func realIndex(tars [][]byte) indexResult {
+// indexOpt: how one Index call is set up.
+type indexOpt struct {
+	Fresh   bool // a new set of Ecosystem values instead of the long-lived one
+	FaultAt int  // the store read (PackagesByLayer, … in call order) that fails; -1 = none
+}
+
+// realIndex runs controller.Index over the given layers (tars) through the long-lived ecosystems.
+func realIndex(tars [][]byte) indexResult { return realIndexWith(tars, indexOpt{FaultAt: -1}) }
+
+func realIndexWith(tars [][]byte, o indexOpt) indexResult {
 	ctx, cancel := context.WithTimeout(context.Background(), 60*time.Second)
 	defer cancel()
 	arena := &memArena{tars: map[string][]byte{}}
@@ -154,6 +175,9 @@ func realIndex(tars [][]byte) indexResult {
 	m.Hash = claircore.MustParseDigest(digestOfBytes(all.Bytes()))
 	st := newMemStore()
 	ecos := ecosystems(ctx)
+	if o.Fresh {
+		ecos = newEcosystems(ctx)
+	}
 	ps, ds, rs, fs, err := indexer.EcosystemsToScanners(ctx, ecos)
 	if err != nil {
 		return indexResult{Err: err}
@@ -184,7 +208,13 @@ func realIndex(tars [][]byte) indexResult {
 	if err != nil {
 		return indexResult{Err: err}
 	}
+	st.mu.Lock()
+	st.recording, st.faultAt = true, o.FaultAt
+	st.mu.Unlock()
 	ir, err := controller.New(opts).Index(ctx, m)
+	st.mu.Lock()
+	st.recording, st.faultAt = false, -1
+	st.mu.Unlock()
 	return indexResult{Report: ir, Store: st, Err: err}
 }
 
